@@ -77,6 +77,9 @@ W = [
     dict(id='int-float-exact-order', commit='1274b83', props=['C13', 'C09', 'C05', 'C14'], query='* | json | count by k | fields k',
          input='{"k": 9223372036854775806}\n{"k": 9223372036854775808}\n{"k": 9223372036854775807}\n{"k": 9007199254740993}\n{"k": 2.5}\n{"k": 2}\n',
          stdout='[{"k":2},{"k":2.5},{"k":9007199254740993},{"k":9223372036854775806},{"k":9223372036854775807},{"k":9.223372036854776e18}]\n'),
+    dict(id='object-text-order', commit='f3ac142', props=['C13', 'C05'], query='* | json | concat(o, "|", arr) as s | fields s',
+         input='{"o":{"e":5,"a":1,"d":{"q":1,"p":"t"},"c":3,"b":[{"z":1,"x":null},"s"]}, "arr":[{"b":1,"a":2}]}\n', args=['-o', 'logfmt'],
+         stdout='s={"a": Int(1), "b": Array([Obj({"x": None, "z": Int(1)}), Str("s")]), "c": Int(3), "d": Obj({"p": Str("t"), "q": Int(1)}), "e": Int(5)}|[Obj({"a": Int(2), "b": Int(1)})]\n'),
 ]
 
 
